@@ -506,6 +506,18 @@ func checkValue(p probe, ms []meta, v reflect.Value) {
 			fail("missing-required-accepted", p.name+m.goName, b.String(), fmt.Sprintf("%s: required field %s (%s) is absent but Unmarshal returned no error", p.name, m.goName, m.key))
 		}
 		count(p.name+" (required field removed)", b.String(), true)
+		// the same through the exported paragraph-level entry point, for the paragraph without the field and for the
+		// paragraph without any field
+		for _, pg := range []control.Paragraph{cut, {Values: map[string]string{}, Order: []string{}}} {
+			fresh := reflect.New(p.typ)
+			what := fmt.Sprintf("UnpackFromParagraph(paragraph with fields %v)", pg.Order)
+			if pan := guard(func() { err = control.UnpackFromParagraph(pg, fresh.Interface()) }); pan != "" {
+				fail("unpack-panic", p.name, what, "UnpackFromParagraph panicked: "+pan)
+			} else if err == nil {
+				fail("missing-required-accepted-unpack", p.name+m.goName, what, fmt.Sprintf("%s: required field %s (%s) is absent but UnpackFromParagraph returned no error", p.name, m.goName, m.key))
+			}
+			count(p.name+" (required field removed, UnpackFromParagraph)", what+m.key, true)
+		}
 	}
 }
 
@@ -636,6 +648,10 @@ func checkEmbedded(lay []kv, nf string, nn, nl interface{}) {
 	if pan := guard(func() { err = control.Marshal(&out, e) }); pan != "" || err != nil {
 		fail("marshal-panic", "embedded", in, fmt.Sprintf("panic=%q err=%v", pan, err))
 		return
+	}
+	var again bytes.Buffer
+	if pan := guard(func() { err = control.Marshal(&again, e) }); pan != "" || err != nil || again.String() != out.String() {
+		fail("marshal-changes-its-argument", "embedded", in, fmt.Sprintf("the same value marshalled twice: first %q, then %q (panic=%q err=%v)", out.String(), again.String(), pan, err))
 	}
 	var para control.Paragraph
 	if out.Len() > 0 {
@@ -1063,7 +1079,7 @@ func main() {
 			"(a) all 8192 subsets of the 13 optional known fields present in the document (X-Req always; the 4 unknown fields in slots that move with the subset), each followed by Unmarshal and one of 5 operations - leave as read / every known field to its zero value / every known field to its last alternative, then Marshal, Unmarshal of the written text into a fresh struct, every known field to zero, Marshal again (the two-step sequence) / fields of even (odd) index to zero and the others to an alternative - then Marshal; " +
 			"(b) the document with all known fields: every single field (two-step, and control:\"-\" field Hidden set to \"h\") and every pair of fields set to every combination of their alternatives; (c) the document with all known fields and one unknown field (the four above, X-U5 'first\\nsecond\\n\\n', X-U6 '.\\n') in every slot, left as read or with Home cleared and Desc set to \"x\\n\\n\".",
 		"rule": "Values are generated as the nested cross product per probe and checked single-threaded (the domain is small). Per value: Marshal must not panic or fail; the written field names must be exactly, in struct order: required fields, and optional fields whose value is not zero (zero = Go zero value or empty list), never control:\"-\" fields; Unmarshal of the text into a fresh value must succeed and reproduce every field; for each required field, the text with that field removed (and an X-Other field added) must make Unmarshal fail. " +
-			"Embedded: unknown fields keep value and relative order, known fields present in the output show the struct's current value, known fields whose current value is zero are omitted, known fields newly set are written. " +
+			"For each required field also: control.UnpackFromParagraph of the paragraph without that field, and of the paragraph without any field, must fail. Embedded: marshalling the same value a second time writes the same text (Marshal does not change its argument); unknown fields keep value and relative order, known fields present in the output show the struct's current value, known fields whose current value is zero are omitted, known fields newly set are written. " +
 			"Embedded with renamed fields (EmbR): the reader's view of the document must match the lines it was rendered from and Unmarshal must decode every known field to the value its text stands for (absent fields stay zero); after the operation and Marshal: an optional known field holding its zero value (nil/empty list, nil pointer, zero Version/Dependency/Arch, \"\") is absent from the written text (reported as embedded-stale-known-field when the text it was read from is re-emitted) - except int/uint/bool whose zero renders as \"0\"/\"no\"; required or non-zero fields are present; string/int/uint/[]string fields read exactly the current value's text; control:\"-\" is never written or read; Unmarshal of the written text into a fresh struct gives every known field its current value; every unknown field is present with the value the reader gave for the document (up to one trailing \"\\n\", so blank lines at the end of a value count); no field is invented; the fields of the document that are written keep the document's order. " +
 			fmt.Sprintf("evaluations by probe: %v. A case is trivial (%d of them, not counted in distinct_nontrivial) when nothing is expected and nothing is written (all fields optional and zero: the text is empty and there is no paragraph to read back). distinct_nontrivial = distinct (probe, value) descriptions by 64-bit FNV.", byPart, trivial),
 		"evaluations":         evals,
